@@ -547,4 +547,62 @@ example : RlpStream.Ready (RlpStream.newStream [0x82, 0x01, 0x00] 3) ∧ (RlpStr
   ⟨RlpStream.newStream_ready [0x82, 0x01, 0x00], rfl, by decide⟩
 example : decTy (.uint 64) [0x82, 0x01, 0x00] = .ok (.num 256, []) := by rfl
 
+/-- `stream_refines_typed_bytes` (narrows the exclusion of `stream_refines_typed_partial`): on every ready, re-armed stream
+    state with something to read — top level or at a list element — the machine's `Bytes()` accepts exactly when the
+    typed-layer primitive `Rlp.readBytes` accepts the window, with the same bytes, the input advanced by the same number of
+    bytes, the cache re-armed, and the ghost allocation grown by at most the bytes consumed (at most the window on errors).
+    `Bytes()` is the reader under `decodeString`, `decodeByteSlice` and `decodeBigInt` (`Rlp.readBig` is `readBytes` followed
+    by the leading-zero test), so the typed universe {uint, bool, bytes, big} is now covered at the primitive level.
+    STILL EXCLUDED: `Raw()` (RawValue) and the composite decoders (list/array/struct/pointer), which are tied by
+    correspondence (`sprim raw`, `tdec`) only. -/
+theorem stream_refines_typed_bytes (s : RlpStream.St) (hr : RlpStream.Ready s) (hk : s.kind = none)
+    (ha : 1 ≤ RlpStream.avail s) :
+    (∀ b rest, Rlp.readBytes (RlpStream.win s) = .ok (b, rest) →
+      ∃ s', RlpStream.bytes s = (.ok b, s') ∧ RlpStream.Step s ((RlpStream.win s).length - rest.length) s' ∧
+        s'.kind = none ∧ rest = RlpStream.win s' ∧ s'.alloc ≤ s.alloc + ((RlpStream.win s).length - rest.length)) ∧
+    (∀ e, Rlp.readBytes (RlpStream.win s) = .error e →
+      ∃ e' s', RlpStream.bytes s = (.error e', s') ∧ s'.alloc ≤ s.alloc + RlpStream.avail s) :=
+  RlpStream.bytes_refines s hr hk ha
+
+/-- … for a fresh `NewStream(r, len)` over a non-empty input: `Stream.Bytes()` accepts exactly what the typed decoder of
+    `[]byte`/`string` accepts, with the same bytes, and allocates no more than the input length. -/
+theorem stream_bytes_top (bs : Bytes) (hne : bs ≠ []) (b : Bytes) :
+    (∃ s', RlpStream.bytes (RlpStream.newStream bs bs.length) = (.ok b, s') ∧ s'.alloc ≤ bs.length) ↔
+      (∃ rest, decTy .bytes bs = .ok (.bytes b, rest)) := by
+  have hr := RlpStream.newStream_ready bs
+  have hw := RlpStream.newStream_win bs
+  have hav := RlpStream.newStream_avail bs
+  have ha : 1 ≤ RlpStream.avail (RlpStream.newStream bs bs.length) := by
+    rw [hav]; cases bs with
+    | nil => exact absurd rfl hne
+    | cons x t => simp
+  obtain ⟨hok, herr⟩ := RlpStream.bytes_refines _ hr rfl ha
+  rw [hw] at hok herr
+  simp only [decTy]
+  constructor
+  · rintro ⟨s', hs', _⟩
+    cases hu : Rlp.readBytes bs with
+    | ok p =>
+      obtain ⟨m, rest⟩ := p
+      obtain ⟨s'', hm, _⟩ := hok m rest hu
+      rw [hs'] at hm
+      simp only [Prod.mk.injEq, Except.ok.injEq] at hm
+      exact ⟨rest, by rw [hm.1]⟩
+    | error e =>
+      obtain ⟨e', s'', hm, _⟩ := herr e hu
+      rw [hs'] at hm; simp at hm
+  · rintro ⟨rest, h⟩
+    cases hu : Rlp.readBytes bs with
+    | ok p =>
+      obtain ⟨m, rest'⟩ := p
+      rw [hu] at h
+      simp only [Except.ok.injEq, Prod.mk.injEq, Val.bytes.injEq] at h
+      obtain ⟨s', hm, _, _, _, hal⟩ := hok m rest' hu
+      refine ⟨s', by rw [← h.1]; exact hm, ?_⟩
+      have : (RlpStream.newStream bs bs.length).alloc = 0 := rfl
+      omega
+    | error e => rw [hu] at h; simp at h
+
+example : decTy .bytes [0x83, 0x01, 0x02, 0x03, 0xff] = .ok (.bytes [1, 2, 3], [0xff]) := by rfl
+
 end Aqv.Props.C11
